@@ -112,6 +112,16 @@ def systematic_cases():
             for k in (0, 2, 5):
                 out.append({"store": st, "ops": list(defs1) + [["arm", k, kind], ["set", R("a"), ["plain", 4], route], ["disarm"],
                                                                   ["set", R("a"), ["plain", 4], route]]})
+    # a task fails while EVALUATING its expression: the k-th container read of the update raises, for every exception class,
+    # below every kind of operator node (the guarded operators %, // catch ZeroDivisionError of the operation itself only)
+    defs3 = [["set", R("b"), ["expr", ["bin", "%", ["ref", R("a")], ["const", 3]]]],
+             ["set", R("c"), ["expr", ["bin", "//", ["bin", "+", ["ref", R("b")], ["ref", R("a")]], ["const", 2]]]],
+             ["set", R("d"), ["expr", ["bin", "+", ["bin", "%", ["ref", R("c")], ["const", 5]], ["ref", R("b")]]]],
+             ["set", R("e"), ["expr", ["bin", "*", ["ref", R("d")], ["proj", "real", ["bin", "-", ["ref", R("c")], ["const", 1]]]]]]]
+    for kind in sorted(set(mc.FAULT_KINDS)):
+        for k in range(0, 9):
+            out.append({"store": store1, "ops": list(defs3) + [["arm_read", k, kind], ["set", R("a"), ["plain", 7], "sv"], ["disarm"],
+                                                               ["set", R("a"), ["plain", 7], "item"]]})
     for store, defs, nmax in ((store1, defs1, 7), (store2, defs2, 5)):
         for k in range(nmax):
             for k2 in (None, 0, k):
